@@ -38,3 +38,6 @@ for c in checks:
     for l in (res.get('check_' + c) or {}).get('lines', [])[:3]:
         if not l.startswith('KNOWN'):
             print('   ', c, l[:150])
+own = checks[0] if checks else None
+if own and (res.get('check_' + own) or {}).get('rc') != 1:
+    print('    MISSED: the check of', own, 'ended rc', (res.get('check_' + own) or {}).get('rc'))
